@@ -133,13 +133,13 @@ type Exec struct {
 	Escaped               interface{} // a panic that reached the caller of the directive
 	Returned              atomic.Bool
 
-	gate       chan struct{}
-	gateOnce   sync.Once
-	reached    chan struct{}
-	reachOnce  sync.Once
-	ReachTgt   int64
-	barrierArr atomic.Int64
-	barrierCh  chan struct{}
+	gate        chan struct{}
+	gateOnce    sync.Once
+	reached     chan struct{}
+	reachOnce   sync.Once
+	ReachTgt    int64
+	barrierArr  atomic.Int64
+	barrierCh   chan struct{}
 	schedStates atomic.Int64
 	BadStates   atomic.Int64
 	startCh     map[int]chan struct{} // closed when the function is first entered
@@ -266,7 +266,9 @@ type CallErr struct {
 	Key  uint64
 }
 
-func (e *CallErr) Error() string { return fmt.Sprintf("exec %d: function %d (key %d) failed", e.Exec, e.Fn, e.Key) }
+func (e *CallErr) Error() string {
+	return fmt.Sprintf("exec %d: function %d (key %d) failed", e.Exec, e.Fn, e.Key)
+}
 
 // PanicStruct is the custom panic value kind.
 type PanicStruct struct {
